@@ -208,14 +208,17 @@ CLAIMED = {
         technique='Lean 4 proof (real analysis of monomials on orthants, signomial-representative algebra) + model/implementation correspondence check',
         design_ref='DESIGN.md 4/C05'),
     'C17': dict(
-        text='PARTIAL (the candidate generators are inputs of the model). Theorems about a Lean model of the final stage of sig_solrec / '
+        text='PARTIAL (the least-squares candidate, COBYLA refinement and the polynomial magnitude / sign recovery are inputs of the model; the '
+             'dual-AGE-cone candidate generation is modelled exactly: weights sum to one, the unique step neither invents nor loses a candidate, '
+             'and at a moment solution mu_i = v_i x the candidate list is exactly [x] - Props/C17Cands; the real '
+             '_dual_age_cone_solution_recovery is compared with the model on float-exact inputs). Theorems about a Lean model of the final stage of sig_solrec / '
              'poly_solrec over float-like values (numbers, +-inf, NaN): a candidate passes the filter iff every inequality value is a number '
              '>= -ineq_tol and every equality value a number within eq_tol (NaN never passes); exactly the passing candidates are returned, '
              'each once, sorted stably by objective. The real is_feasible is compared with the model on synthetic values; the real '
              'sig_solrec / poly_solrec are run on solved dual relaxations (X none / plain / with auxiliary columns, option grid) with a recorder '
              'around is_feasible, and verdicts and output order are compared with the model; every returned point is re-evaluated independently.',
-        note='F8 repaired in /repo (c86e180 lifted PolyDomain crash, cfea74b NaN passes the filter).',
-        technique='Lean 4 proof (filter / stable-sort model over float-like values) + model/implementation correspondence check with recorded candidates',
+        note='F8 repaired in /repo (c86e180 lifted PolyDomain crash, cfea74b NaN passes the filter); F24 repaired in /repo (d08cc1e: recovery raised when a constraint was absent from the Lagrangian, e.g. x_i >= 0 at q = 2).',
+        technique='Lean 4 proof (filter / stable-sort model over float-like values; exact candidate-generation model over rationals) + model/implementation correspondence check with recorded candidates',
         design_ref='DESIGN.md 4/C17'),
     'C15': dict(
         text='PARTIAL (the compiled form of the generated constraints is C07\'s subject; emptiness detection relies on the solver). Theorems '
@@ -230,7 +233,10 @@ CLAIMED = {
         technique='Lean 4 proof (real analysis of posynomial normalisation, log-space forms, column reordering) + model/implementation correspondence check',
         design_ref='DESIGN.md 4/C15'),
     'C06': dict(
-        text='PARTIAL (completeness of AGE certificates beyond circuits is convex duality and is not proved; monotonicity in ell / X is audited). '
+        text='PARTIAL (completeness of AGE certificates is PROVED on compact boxes - box_exact, box_bound_exact: certified over the box\'s conic '
+             'form iff nonnegative on the box, level-0 bound of posynomial + constant = its minimum - and on R^n at an attained minimum, by '
+             'first-order optimality with the explicit certificate; on R^n with a non-attained infimum and on other domains it is convex duality '
+             'and is not proved; monotonicity in ell / X is audited; the box\'s conic form of the theorem is tied to the real SigDomain through the driver). '
              'Theorems about the semantic AGE certificate (the predicate the compiled rows express, C01): soundness; invariance under '
              'translation, invertible linear change of variables, positive scaling, exponent shift and re-indexing; larger covers only help and '
              'dropping a cover index can lose a certificate; circuit completeness with the closed-form circuit number, sharp on the midpoint '
@@ -239,7 +245,7 @@ CLAIMED = {
              'over boxes vs rigorous grid + Lipschitz enclosures, bounds under permutation / unimodular change / translation / affine scaling, '
              'ell 0 vs 1, box vs sub-box.',
         note='F10 (default heuristic reduction loses exactness over boxes) is a recorded known finding shared with C19.',
-        technique='Lean 4 proof (real analysis of relative-entropy certificates: invariances, circuit number) + model/implementation correspondence of the cover presolve + metamorphic solver audit',
+        technique='Lean 4 proof (real analysis of relative-entropy certificates: invariances, circuit number, completeness on boxes by compactness + first-order optimality) + model/implementation correspondence of the cover presolve and of the box conic form + metamorphic solver audit',
         design_ref='DESIGN.md 4/C06'),
 }
 
